@@ -201,7 +201,7 @@ def run(ck):
                "declared answer for the prefixes '', a, ab, abc, b, c; quick runs a seeded sample of 640 assignments (always including nothing / everything / one "
                "kind everywhere), thorough all of them; each is stored through a real ring of 1..4 nodes (ring sizes cycle; node ids uniformly random, inside "
                "random arcs between key identifiers, at key identifier +/- 1, or adjacent; memory and SQLite stores alternating, all-SQLite or random) by "
-               "Put / PrefixAppend (1 or 2 children) / Acquire asked at seeded nodes (the last content of every ring is listed again after a member left or one more node - memory or SQLite store - joined), the letters stored as themselves or as the bytes ff/00/fe, 00/ff/80 (per ring), and ListKeys is asked at every node for every prefix; "
+               "Put / PrefixAppend (1 or 2 children, in half of the cases a third one that is removed again by PrefixRemove once everything is stored) / Acquire asked at seeded nodes (the last content of every ring is listed again after a member left or one more node - memory or SQLite store - joined), the letters stored as themselves or as the bytes ff/00/fe, 00/ff/80 (per ring), and ListKeys is asked at every node for every prefix; "
                "evaluations = (case, node, prefix) listings compared as multisets; non-trivial = cases that store at least one (key, kind); distinct = distinct (ring, content)")
     ck.assumptions += ["'stable ring' = a fixpoint of the real stabilize / checkPredecessor / fixFinger with background tasks parked (as in C01)",
                        "simple values are never empty (a key whose value was set to empty is listed as SIMPLE by SQLite: known finding of C16)",
